@@ -8,11 +8,11 @@ from props.C34 import rchunks, ref_read, coq_ns
 ID = "C35"
 THEOREMS = [
     "C35_caps_roundtrip", "C35_hash_roundtrip", "C35_report_roundtrip",
-    "C35_shupd_sha256_refuted", "C35_shupd_roundtrip_partial", "C35_uphav_roundtrip",
+    "C35_shupd_roundtrip", "C35_uphav_roundtrip",
     "C35_pushopts_roundtrip", "C35_srvresp_roundtrip", "C35_advrefs_roundtrip", "C35_advrefs_first_peeled",
-    "C35_updreq_roundtrip", "C35_ulreq_filter_refuted", "C35_ulreq_roundtrip_partial",
+    "C35_updreq_roundtrip", "C35_ulreq_roundtrip",
 ]
-MODEL_FILES = ["PktLine.v", "Packp.v"]
+MODEL_FILES = ["PktLine.v", "C35UniTable.v", "C35Utf8.v", "Packp.v", "PackpV2.v"]
 MODELLED = ("plumbing/protocol/capability/list.go DecodeList / Add / AppendText; plumbing/objectid.go FromHex / NewHash / String / IsZero / Compare; "
             "plumbing/protocol/packp: AdvRefs, UploadRequest, UploadHaves, ServerResponse, ShallowUpdate, UpdateRequests, ReportStatus, PushOptions "
             "Encode and Decode (Model/Packp.v) on top of the pkt-line model of C34. Decoders read through pktline.Scanner only, so the model "
@@ -37,6 +37,12 @@ CAPS_POOL = [("multi_ack", []), ("thin-pack", []), ("side-band-64k", []), ("ofs-
              ("object-format", ["sha1"]), ("filter", []), ("push-options", []), ("x", ["", "y"]), ("session-id", ["a=b"])]
 NAMES = [b"HEAD", b"refs/heads/main", b"refs/heads/a", b"refs/heads/b", b"refs/tags/v1", b"refs/tags/v2", b"refs/tags/a",
          b"refs/remotes/o/m", b"refs/notes/c", b"refs/heads/zz"]
+
+
+# white space as bytes.TrimSpace / strings.Fields see it, and near misses: NBSP, NEL, LS, IDEOGRAPHIC SPACE, OGHAM SPACE,
+# EN QUAD, a raw 0x85 / 0xa0 (invalid UTF-8, not space), a truncated sequence, U+200B (not space), U+180E (not space)
+UNI_WS = [b"\xc2\xa0", b"\xc2\x85", b"\xe2\x80\xa8", b"\xe3\x80\x80", b"\xe1\x9a\x80", b"\xe2\x80\x80", b"\x85", b"\xa0",
+          b"\xe2\x80", b"\xe2\x80\x8b", b"\xe1\xa0\x8e", b"\t", b"\r", b"\x0b", b"\xe2\x81\x9f", b"\xf0\x9f\x9a\x80"]
 
 
 def hx(b):
@@ -113,7 +119,9 @@ def mutate(rng, data):
         if l > 4:
             pl = bytearray(pl)
             j = rng.randrange(len(pl))
-            pl[j:j + 1] = rng.choice([b"", b" ", b"  ", b"\x00", b"x", b"\n"])
+            pl[j:j + 1] = rng.choice([b"", b" ", b"  ", b"\x00", b"x", b"\n"] + UNI_WS)
+            if rng.random() < 0.25:                 # white space (ASCII / Unicode / broken UTF-8) at either end of the line
+                pl = bytearray(rng.choice(UNI_WS + [b""]) + bytes(pl).rstrip(b"\n") + rng.choice(UNI_WS) + rng.choice([b"", b"\n"]))
             return b"%04x" % (len(pl) + 4) + bytes(pl) + bytes(b[pos:])
         return bytes(b)
     if k == 6:      # swap two packets
@@ -380,17 +388,13 @@ class Msgs(Suite):
         ch = coq_ns(c.get("chunks", []))
         if k == "caps":
             raw = bytes.fromhex(c["hex"])
-            return "c35_caps %s" % coq_hex(raw) if ascii_only(raw) else None
+            return "c35_caps %s" % coq_hex(raw)
         if k == "dec":
             raw = bytes.fromhex(c["hex"])
-            if not ascii_only(raw):
-                return None
             if c["msg"] == "updreq" and not self.updreq_domain(raw):
                 return None
             return 'c35_dec "%s" %s %s' % (c["msg"], coq_hex(raw), ch)
         m = c["msg"]
-        if not ascii_only(value_bytes(c)):
-            return None
         if m == "advrefs":
             refs = coq_list(["(%s, %s)" % (coq_hex(bytes.fromhex(n)), coq_hex(bytes.fromhex(h))) for n, h in c["refs"]])
             return "c35_advrefs %s %s %s %s %s" % (coq_Z(c["version"]), coq_caps(c["caps"]), refs, hs(c["shallows"]), ch)
@@ -460,10 +464,6 @@ class Msgs(Suite):
         return fails
 
     def finding_class(self, c, reason, reply):
-        if c.get("kind") == "rt" and c.get("msg") == "ulreq" and c.get("filter"):
-            return "ulreq-filter-not-decoded"
-        if c.get("kind") == "rt" and c.get("msg") == "shupd" and any(len(h) == 128 for h in c["shallows"] + c["unshallows"]):
-            return "shupd-sha256-rejected"
         return None
 
     def extra(self, ctx, cases, impl, model):
@@ -507,4 +507,327 @@ class Msgs(Suite):
         return n == b"HEAD" or n.startswith(b"refs/")
 
 
-SUITES = [Msgs()]
+
+# ====================================================================== protocol v2
+CAPS2_POOL = [("agent", ["git/2.39.5"]), ("ls-refs", ["unborn"]), ("ls-refs", []), ("fetch", ["shallow", "wait-for-done", "filter"]),
+              ("fetch", ["shallow"]), ("server-option", []), ("object-format", ["sha1"]), ("object-format", ["sha256"]),
+              ("object-info", []), ("session-id", ["a=b"]), ("x", ["y", "z=1"])]
+CAPS2_HOSTILE = [("x", [""]), ("y", ["a b"]), ("", []), ("k=v", []), ("z", ["", "q"]), ("sp ace", []), ("n", ["l\n"]),
+                 ("\xc2\xa0k", ["v\xe2\x80\xa8"])]
+V2_DEC = ["capadv", "cmd-nil", "cmd-lsrefs", "cmd-fetch", "lsargs", "fetchargs", "lsout", "fetchout"]
+V2_MSGS = ["capadv", "cmd", "lsargs", "fetchargs", "lsout", "fetchout"]
+ZERO_TIME = -62135596800
+
+
+def rcaps2(rng, hostile):
+    seen, out = set(), []
+    for _ in range(rng.randrange(5)):
+        n, v = rng.choice(CAPS2_POOL + (CAPS2_HOSTILE if hostile else []))
+        if n in seen:                   # a capability.List value: one entry per key
+            continue
+        seen.add(n)
+        out.append([hx(n.encode("latin-1"))] + [hx(x.encode("latin-1")) for x in v])
+    return out
+
+
+def caps2_wf(caps):
+    for e in caps:
+        if not tok_ok(bytes.fromhex(e[0]), b"=") or not all(tok_ok(bytes.fromhex(v)) for v in e[1:]):
+            return False
+    return len({e[0] for e in caps}) == len(caps)
+
+
+def gen_ls(rng, hostile):
+    pool = [b"refs/heads/", b"refs/tags/", b"HEAD", b"refs/", b"refs/heads/main", b"refs/h\xc3\xa9"]
+    bad = [b"", b"a b", b"x\n", b"\x00", b"refs/\xc2\xa0", b"refs/\xe2\x80\xa8x", b"r\x7f", b"r\xc2\x85", b"ok\xff\xfe", b"t\tab", b"refs/\xc2\x9f"]
+    pre = [hx(rng.choice(pool + (bad if hostile else []))) for _ in range(rng.randrange(0, 4))]
+    return {"peel": rng.random() < 0.5, "symrefs": rng.random() < 0.5, "unborn": rng.random() < 0.3, "prefixes": pre}
+
+
+def gen_fetch(rng, hostile, H):
+    a = {"wants": [H() for _ in range(rng.randrange(0 if hostile else 1, 4))], "haves": [H() for _ in range(rng.randrange(0, 4))],
+         "flags": [rng.random() < 0.4 for _ in range(7)], "shallows": [H() for _ in range(rng.choice([0, 0, 1, 2]))],
+         "deepen": rng.choice([0, 0, 0, 1, 7, 2147483647] + ([-1, -7] if hostile else [])), "since": rng.choice([None, None, 0, 1700000000, -5] + ([ZERO_TIME] if hostile else [])),
+         "not": [hx(rng.choice(NAMES + ([b"a b", b" x", b"y\xc2\xa0"] if hostile else []))) for _ in range(rng.choice([0, 0, 1, 2]))],
+         "filter": hx(rng.choice([b"", b"", b"blob:none", b"tree:0", b"blob:limit=1k", b"combine:blob:none+tree:1"] + ([b" sp", b"x\n"] if hostile else [])))}
+    if a["wants"] and rng.random() < 0.3:
+        a["wants"].append(rng.choice(a["wants"]))
+    if hostile and rng.random() < 0.3:
+        a["haves"].append(hx(Z40))
+    return a
+
+
+def gen_value2(rng, msg):
+    fmt = 64 if rng.random() < 0.2 else 40
+    H = lambda: hx(rhash(rng, fmt))
+    hostile = rng.random() < 0.2
+    if msg == "capadv":
+        return {"msg": msg, "version": 2 if rng.random() < 0.9 else rng.choice([0, 1, 3]), "caps": rcaps2(rng, hostile)}
+    if msg == "cmd":
+        args = rng.choice(["nil", "lsrefs", "fetch"])
+        cmd = {"nil": [b"object-info", b"", b"ls-refs"], "lsrefs": [b"ls-refs"], "fetch": [b"fetch"]}[args]
+        c = {"msg": msg, "args": args, "command": hx(rng.choice(cmd + ([b"", b"a b", b"x\n", b"f\xc3\xa9tch"] if hostile else []))), "caps": rcaps2(rng, hostile)}
+        if args == "lsrefs":
+            c["ls"] = gen_ls(rng, hostile)
+        if args == "fetch":
+            c["fetch"] = gen_fetch(rng, hostile, H)
+        return c
+    if msg == "lsargs":
+        return {"msg": msg, "ls": gen_ls(rng, hostile)}
+    if msg == "fetchargs":
+        return {"msg": msg, "fetch": gen_fetch(rng, hostile, H)}
+    if msg == "lsout":
+        refs = []
+        names = rng.sample(NAMES, rng.randrange(0, 6))
+        for n in names:
+            if n == b"HEAD" and rng.random() < 0.7:
+                refs.append([hx(n), True, hx(rng.choice([b"refs/heads/main", b"refs/heads/unborn", b"refs/heads/a"]))])
+            elif rng.random() < 0.12:
+                refs.append([hx(n), True, hx(rng.choice(NAMES[1:]))])
+            else:
+                refs.append([hx(n), False, H() if rng.random() < 0.93 else hx("0" * fmt)])
+                if n.startswith(b"refs/tags/") and rng.random() < 0.7:
+                    refs.append([hx(n + b"^{}"), False, H()])
+        mode = rng.randrange(4)
+        if mode == 0:
+            rng.shuffle(refs)
+        if hostile:
+            k = rng.randrange(6)
+            if k == 0 and refs:
+                refs.append(list(rng.choice(refs)))
+            elif k == 1:
+                refs.append([hx(b"refs/tags/orphan^{}"), False, H()])
+            elif k == 2:
+                refs.insert(0, [hx(rng.choice([b"", b"a b", b"n\xc2\xa0m", b"x\xe3\x80\x80", b"peeled:zz"])), False, H()])
+            elif k == 3:
+                refs.append([hx(b"refs/heads/s"), True, hx(rng.choice([b"", b"t t", b"refs/\xe2\x80\xa9"]))])
+            elif k == 4:
+                refs.append([hx(b"refs/tags/symp^{}"), True, hx(b"refs/heads/a")])
+        return {"msg": msg, "refs": refs}
+    if msg == "fetchout":
+        o = {"msg": msg, "acks": None, "shallow": None, "wanted": None, "uris": None, "packfile": rng.random() < 0.6}
+        if not o["packfile"] or rng.random() < 0.5:
+            o["acks"] = {"hashes": [H() for _ in range(rng.randrange(0, 4))], "ready": o["packfile"] and rng.random() < (0.6 if hostile else 1.0)}
+        if hostile and not o["packfile"] and rng.random() < 0.3:
+            o["acks"]["ready"] = True
+        if o["packfile"] or (hostile and rng.random() < 0.3):
+            if rng.random() < 0.4:
+                o["shallow"] = {"sh": [H() for _ in range(rng.randrange(0, 3))], "un": [H() for _ in range(rng.randrange(0, 3))]}
+            if rng.random() < 0.3:
+                o["wanted"] = [[hx(rng.choice(NAMES + ([b"a b", b""] if hostile else []))), H()] for _ in range(rng.randrange(0, 3))]
+            if rng.random() < 0.2:
+                o["uris"] = [hx(rng.choice([b"https://cdn.example/p1.pack", b"abc", b"u v"] + ([b"", b"x\n", b"ERR z"] if hostile else []))) for _ in range(rng.randrange(0, 3))]
+        return o
+    raise ValueError(msg)
+
+
+def coq_strs(l):
+    return coq_list([coq_hex(bytes.fromhex(x)) for x in l])
+
+
+def coq_lsargs(a):
+    return "(mk_lsargs %s %s %s %s)" % (coq_bool(a["peel"]), coq_bool(a["symrefs"]), coq_bool(a["unborn"]), coq_strs(a["prefixes"]))
+
+
+def coq_fetchargs(a):
+    return "(mk_fetchargs %s %s %s %s %s %s %s %s)" % (
+        hs(a["wants"]), hs(a["haves"]), coq_list([coq_bool(f) for f in a["flags"]]), hs(a["shallows"]), coq_Z(a["deepen"]),
+        coq_opt(None if a["since"] is None else coq_Z(a["since"])), coq_strs(a["not"]), coq_hex(bytes.fromhex(a["filter"])))
+
+
+def coq_optv(x, f):
+    return "None" if x is None else "(Some %s)" % f(x)
+
+
+def since_canon(t):
+    return None if t is None or t == ZERO_TIME else t
+
+
+def fetch_canon(a):
+    if not a["wants"] or not all(hash_ok(h, True) for h in a["wants"] + a["haves"] + a["shallows"]):
+        return None
+    if not all(tok_ok(bytes.fromhex(r)) for r in a["not"]) or not tok_ok(bytes.fromhex(a["filter"]) or b"x"):
+        return None
+    key = lambda h: bytes.fromhex(hstr(h))
+    return {"wants": sorted((hstr(h) for h in a["wants"]), key=bytes.fromhex), "haves": sorted((hstr(h) for h in a["haves"]), key=bytes.fromhex),
+            "flags": a["flags"], "shallows": sorted((hstr(h) for h in a["shallows"]), key=bytes.fromhex),
+            "deepen": a["deepen"] if a["deepen"] > 0 else 0, "since": since_canon(a["since"]), "not": a["not"], "filter": a["filter"]}
+
+
+def ls_canon(a):
+    if not all(tok_ok(bytes.fromhex(p)) for p in a["prefixes"]):
+        return None
+    return dict(a)
+
+
+def expected2(c):
+    """-> (wf, expected decoded value) for a v2 value case; the decoder must also leave nothing unread"""
+    m = c["msg"]
+    if m == "capadv":
+        if c["version"] != 2 or not caps2_wf(c["caps"]):
+            return False, None
+        return True, {"version": 2, "caps": c["caps"]}
+    if m == "cmd":
+        cmd = bytes.fromhex(c["command"])
+        if not caps2_wf(c["caps"]):
+            return False, None
+        if cmd == b"":
+            return False, None          # an empty command is the empty request (a flush): capabilities and arguments are not sent
+        if not tok_ok(cmd):
+            return False, None
+        args = None
+        if c["args"] == "lsrefs":
+            args = ls_canon(c["ls"])
+        elif c["args"] == "fetch":
+            args = fetch_canon(c["fetch"])
+        if c["args"] != "nil" and args is None:
+            return False, None
+        return True, {"command": c["command"], "caps": c["caps"], "args": args}
+    if m == "lsargs":
+        a = ls_canon(c["ls"])
+        return (a is not None), a
+    if m == "fetchargs":
+        a = fetch_canon(c["fetch"])
+        return (a is not None), a
+    if m == "lsout":
+        byname = {}
+        for n, sym, v in c["refs"]:
+            nb = bytes.fromhex(n)
+            if not tok_ok(nb):
+                return False, None
+            if sym and not tok_ok(bytes.fromhex(v)):
+                return False, None
+            if not sym:
+                if not hash_ok(v, True):
+                    return False, None
+                byname[nb] = v
+        want = []
+        for n, sym, v in c["refs"]:
+            nb = bytes.fromhex(n)
+            if nb.endswith(b"^{}"):
+                continue
+            want.append([n, sym, v])
+            if not sym and nb + b"^{}" in byname:
+                want.append([(nb + b"^{}").hex(), False, byname[nb + b"^{}"]])
+        return True, want
+    if m == "fetchout":
+        a, sh, w, u = c["acks"], c["shallow"], c["wanted"], c["uris"]
+        hashes = (a["hashes"] if a else []) + (sh["sh"] + sh["un"] if sh else []) + ([h for _, h in w] if w else [])
+        if not all(hash_ok(h, True) for h in hashes):
+            return False, None
+        if c["packfile"]:
+            if a is not None and not a["ready"]:
+                return False, None      # acknowledgments without "ready" end the response (gitprotocol-v2); Encode does not check it
+        else:
+            if a is None or a["ready"] or sh is not None or w is not None or u is not None:
+                return False, None
+        if w and not all(tok_ok(bytes.fromhex(n)) for n, _ in w):
+            return False, None
+        if u and not all(not bytes.fromhex(x).endswith(b"\n") and not bytes.fromhex(x).startswith(b"ERR ") for x in u):
+            return False, None
+        return True, {"packfile": c["packfile"], "acks": None if a is None else {"hashes": [hstr(h) for h in a["hashes"]], "ready": a["ready"]},
+                      "shallow": None if sh is None else {"sh": [hstr(h) for h in sh["sh"]], "un": [hstr(h) for h in sh["un"]]},
+                      "wanted": None if w is None else [[n, hstr(h)] for n, h in w], "uris": u}
+    return False, None
+
+
+def dec_kind(c):
+    return "cmd-" + c["args"] if c["msg"] == "cmd" else c["msg"]
+
+
+class V2(Suite):
+    """protocol v2 messages: value -> Encode -> chunked Decode, and Decode of raw / mutated streams"""
+    name = "v2"
+    go_cmd = "c35"
+    coq_imports = "From GoGit Require Import Model.PktLine Model.Packp Model.PackpV2."
+    quick_n = 320
+    thorough_n = 2500
+    coq_chunk = 70
+
+    def gen(self, rng, n, tier):
+        import random
+        from vf import core
+        cases = [{"bucket": "unitab", "kind": "unitab"}]
+        while len(cases) < n:
+            b = pick_weighted(rng, [(6, "rt"), (5, "dec")])
+            msg = rng.choice(V2_MSGS)
+            v = gen_value2(rng, msg)
+            if b == "rt":
+                v.update({"bucket": "rt2-" + dec_kind(v), "kind": "rt2", "chunks": rchunks(rng, 250)})
+                cases.append(v)
+            else:
+                v.update({"kind": "rt2", "chunks": []})
+                dk = dec_kind(v) if rng.random() < 0.85 else rng.choice(V2_DEC)       # sometimes the wrong decoder
+                cases.append({"bucket": "dec2-" + dk, "kind": "dec2", "msg": dk, "_from": v, "chunks": rchunks(rng, 200), "_seed": rng.randrange(1 << 30)})
+        need = [c for c in cases if c["kind"] == "dec2"]
+        if need:
+            enc = core.run_impl(self.go_cmd, [dict(c["_from"], id=i) for i, c in enumerate(need)])
+            for i, c in enumerate(need):
+                r = random.Random(c.pop("_seed"))
+                data = bytes.fromhex(((enc.get(i) or {}).get("extra") or {}).get("bytes") or "")
+                c.pop("_from")
+                if r.random() < 0.15:
+                    data += r.choice([b"0000", b"0009PACK\n", b"0002", b"000dpackfile\n", b"0001"])     # something after the message
+                c["hex"] = (mutate(r, data) if r.random() < 0.75 else data).hex()
+        return cases
+
+    def model_expr(self, c):
+        k = c["kind"]
+        ch = coq_ns(c.get("chunks", []))
+        if k == "unitab":
+            return "c35_unitab"
+        if k == "dec2":
+            return 'c35v2_dec "%s" %s %s' % (c["msg"], coq_hex(bytes.fromhex(c["hex"])), ch)
+        m = c["msg"]
+        if m == "capadv":
+            return "c35v2_capadv %s %s %s" % (coq_Z(c["version"]), coq_caps(c["caps"]), ch)
+        if m == "cmd":
+            cmd = coq_hex(bytes.fromhex(c["command"]))
+            if c["args"] == "nil":
+                return "c35v2_cmd_nil %s %s %s" % (cmd, coq_caps(c["caps"]), ch)
+            if c["args"] == "lsrefs":
+                return "c35v2_cmd_lsrefs %s %s %s %s" % (cmd, coq_caps(c["caps"]), coq_lsargs(c["ls"]), ch)
+            return "c35v2_cmd_fetch %s %s %s %s" % (cmd, coq_caps(c["caps"]), coq_fetchargs(c["fetch"]), ch)
+        if m == "lsargs":
+            return "c35v2_lsargs %s %s" % (coq_lsargs(c["ls"]), ch)
+        if m == "fetchargs":
+            return "c35v2_fetchargs %s %s" % (coq_fetchargs(c["fetch"]), ch)
+        if m == "lsout":
+            refs = coq_list(["(%s, %s, %s)" % (coq_hex(bytes.fromhex(n)), coq_bool(sym), coq_hex(bytes.fromhex(v))) for n, sym, v in c["refs"]])
+            return "c35v2_lsout %s %s" % (refs, ch)
+        if m == "fetchout":
+            a, sh, w, u = c["acks"], c["shallow"], c["wanted"], c["uris"]
+            return "c35v2_fetchout (mk_fetchout %s %s %s %s %s) %s" % (
+                coq_optv(a, lambda a: "(%s, %s)" % (hs(a["hashes"]), coq_bool(a["ready"]))),
+                coq_optv(sh, lambda s: "(%s, %s)" % (hs(s["sh"]), hs(s["un"]))),
+                coq_optv(w, lambda w: coq_list(["(%s, %s)" % (coq_hex(bytes.fromhex(n)), coq_hex(bytes.fromhex(h))) for n, h in w]) if w else "(@nil (string * string))"),
+                coq_optv(u, lambda u: coq_strs(u) if u else "(@nil string)"), coq_bool(c["packfile"]), ch)
+        return None
+
+    def nontrivial(self, c):
+        return c["kind"] != "unitab"
+
+    def oracle(self, ctx, cases, impl, model):
+        fails = {}
+        for c in cases:
+            r = impl.get(c["id"])
+            if r is None or r.get("panic"):
+                fails[c["id"]] = "no reply / panic"
+                continue
+            if c["kind"] != "rt2":
+                continue
+            wf, want = expected2(c)
+            if not wf:
+                continue
+            ex = r.get("extra") or {}
+            if ex.get("enc") != "ok":
+                fails[c["id"]] = "well-formed v2 %s value was not encoded: %s" % (c["msg"], ex.get("err"))
+            elif (ex.get("value") or {}).get("v") != want or (ex.get("value") or {}).get("rest") != 0:
+                fails[c["id"]] = "decode(encode(v)) = %s, expected %s with nothing left unread" % (ex.get("value"), want)
+        return fails
+
+    def finding_class(self, c, reason, reply):
+        return None
+
+
+SUITES = [Msgs(), V2()]
